@@ -17,7 +17,7 @@
 -/
 namespace Tins.Own
 
-abbrev Addr := Nat
+scoped notation "Addr" => Nat
 
 structure View where
   cls : Nat
